@@ -1,5 +1,5 @@
 (* C01 — acyclic dataflow: every output equals the dependency-order evaluation. *)
-From HG Require Import Base Engine Exec EngineProofs C01Proofs Samples.
+From HG Require Import Base Engine Exec EngineProofs C01Proofs C01Term Samples.
 From stdpp Require Import gmap.
 
 (* The declarative spec is `Sol`: the dataflow equations of the graph
@@ -16,8 +16,7 @@ Proof. exact Sol_unique. Qed.
 Print Assumptions C01_unique.
 
 (* Every COMPLETED run, under either runner, any node-list order and any budget, ends in that
-   solution.  (Partial correctness: that a DAG completes within max_iterations supersteps is
-   not part of this theorem; a run that does not is reported as InfiniteLoopError, C04.) *)
+   solution (partial correctness; termination is C01_terminates / C01_completes below). *)
 Theorem C01_values_partial : forall exec g pv, WF exec g pv -> List.NoDup (dkeys pv) ->
   forall r fuel st log, execute exec r fuel g pv = (RDone st, log) -> Sol exec g pv (vals st).
 Proof. exact run_reaches_solution. Qed.
@@ -37,6 +36,50 @@ Theorem C01_runs_iff_satisfiable : forall exec g pv, WF exec g pv -> List.NoDup 
 Proof. exact run_node_iff. Qed.
 Print Assumptions C01_runs_iff_satisfiable.
 
+(* TERMINATION.  `rank` is any function witnessing acyclicity (a producer ranks below its consumers) and K any strict
+   bound on the ranks (the depth of the graph + 1): after K supersteps nothing is ready any more, under either runner. *)
+Theorem C01_terminates : forall exec g pv, WF exec g pv -> List.NoDup (dkeys pv) ->
+  forall rank : name -> nat,
+  (forall n m p, In n (g_nodes g) -> In m (g_nodes g) -> In p (n_inputs n) -> In p (n_outputs m) ->
+     rank (n_name m) < rank (n_name n)) ->
+  forall r K sk, (forall n, In n (g_nodes g) -> rank (n_name n) < K) ->
+  steps exec r g pv K (init_state pv) sk -> ready_list g sk = [].
+Proof. exact dag_quiescent_within. Qed.
+Print Assumptions C01_terminates.
+
+(* With max_iterations >= K the run never ends in InfiniteLoopError: a failure is the failure of a node's superstep. *)
+Theorem C01_budget_suffices : forall exec g pv, WF exec g pv -> List.NoDup (dkeys pv) ->
+  forall rank : name -> nat,
+  (forall n m p, In n (g_nodes g) -> In m (g_nodes g) -> In p (n_inputs n) -> In p (n_outputs m) ->
+     rank (n_name m) < rank (n_name n)) ->
+  forall r fuel K, (forall n, In n (g_nodes g) -> rank (n_name n) < K) -> K <= fuel ->
+  match fst (execute exec r fuel g pv) with
+  | RDone _ => True
+  | RFailed e p => exists k sk calls, k < fuel /\ steps exec r g pv k (init_state pv) sk /\ ready_list g sk <> [] /\
+                     superstep exec r g (ready_state g sk) pv (ready_list g sk) = (SErr e p, calls)
+  | RPaused _ _ => True
+  end.
+Proof. exact dag_budget_suffices. Qed.
+Print Assumptions C01_budget_suffices.
+
+(* TOTAL CORRECTNESS: if, moreover, no node function raises, the run completes, and (C01_values_partial) in the
+   unique solution of the dataflow equations. *)
+Theorem C01_completes : forall exec g pv, WF exec g pv -> List.NoDup (dkeys pv) ->
+  forall rank : name -> nat,
+  (forall n m p, In n (g_nodes g) -> In m (g_nodes g) -> In p (n_inputs n) -> In p (n_outputs m) ->
+     rank (n_name m) < rank (n_name n)) ->
+  forall r fuel K, (forall n, In n (g_nodes g) -> rank (n_name n) < K) -> K <= fuel ->
+  (forall n s ins e, In n (g_nodes g) -> exec n s ins <> ORaise e) ->
+  exists st, fst (execute exec r fuel g pv) = RDone st /\ Sol exec g pv (vals st).
+Proof.
+  intros exec g pv Hwf Hnd rank Hrank r fuel K HK Hf Hnr.
+  destruct (dag_completes exec g pv Hwf Hnd rank Hrank r fuel K HK Hf Hnr) as [st Hst].
+  exists st. split; [exact Hst|].
+  destruct (execute exec r fuel g pv) as [res log] eqn:E. simpl in Hst. subst res.
+  exact (run_reaches_solution exec g pv Hwf Hnd r fuel st log E).
+Qed.
+Print Assumptions C01_completes.
+
 (* Non-vacuity: the diamond DAG of Samples.v is well-formed, completes, and its final values
    are the nested terms of the dependency-order evaluation. *)
 Example C01_nonvacuous_run :
@@ -45,6 +88,13 @@ Example C01_nonvacuous_run :
   dget (res_values r) 34 = Some (VTup [VStr 14; VTup [VStr 11; VTup [VStr 10; VInt 5]];
                                                VTup [VStr 12; VTup [VStr 10; VInt 5]]]).
 Proof. vm_compute. split; reflexivity. Qed.
+
+(* the bound is exact on the diamond (depth 2, K = 3): it completes with max_iterations = 3 and not with 2 *)
+Example C01_nonvacuous_budget :
+  res_status (run_basic dag_ft [] Sync 3 dag [(1%positive, VInt 5)] None) = 0 /\
+  res_status (run_basic dag_ft [] Async 3 dag [(1%positive, VInt 5)] None) = 0 /\
+  res_status (run_basic dag_ft [] Sync 2 dag [(1%positive, VInt 5)] None) = 1.
+Proof. vm_compute. repeat split; reflexivity. Qed.
 
 Example C01_nonvacuous_wf : WF (exec_basic dag_ft []) dag [(1%positive, VInt 5)].
 Proof.
